@@ -130,13 +130,23 @@ def generate(tier, seed):
             if any('d(X)' in e for e in entries[:1]):
                 seq = defs + entries
         outlines.append(('sequence', ' '.join(seq)))
+    # every sequence of directions of length 2 and 3, with lemmas none of which follows from the premises (nor from the
+    # earlier ones): whichever bookkeeping decides which lemma is visible where, a slip shows as an unjustified axiom
+    dirs = {'f': '(forward)', 'b': '(backward)', 'u': ''}
+    for k in (2, 3):
+        for seq in itertools.product('fbu', repeat=k):
+            po = ' '.join('lemma%s: forall X (q(X) -> X > %d).' % (dirs[d], 10 * (i + 1)) if not (k == 3 and i == 1)
+                          else 'inductive-lemma%s: forall N$i (N$i >= 0 -> (q(N$i) -> N$i > %d)).' % (dirs[d], 10 * (i + 1))
+                          for i, d in enumerate(seq))
+            outlines.append(('direction-sequences', po))
     items = []
     for fam, po in list(outlines):
         if ' n)' in po or 'n <' in po or '> n' in po:
             outlines.remove((fam, po))
             items.append({'family': 'outline-' + fam, 'task': BASE_TASKS[1], 'outline': po, 'label': '%s + %s' % (BASE_TASKS[1][0], po[:160])})
     for fam, po in outlines:
-        for t in (BASE_TASKS if tier == 'thorough' else BASE_TASKS[:3] if fam == 'single' else [rnd.choice(BASE_TASKS)]):
+        for t in (BASE_TASKS if tier == 'thorough' else BASE_TASKS[:3] if fam == 'single' else BASE_TASKS[:1] if fam == 'direction-sequences'
+                  else [rnd.choice(BASE_TASKS)]):
             items.append({'family': 'outline-' + fam, 'task': t, 'outline': po, 'label': '%s + %s' % (t[0], po[:160])})
     for name, po in GOOD_DIRECTION_MIXES:
         items.append({'family': 'definition-acceptance', 'task': BASE_TASKS[0], 'outline': po, 'expect_refused': None,
@@ -290,9 +300,10 @@ def check_item(item):
         # (a) visibility, problem by problem
         for k, p in probs:
             m = re.fullmatch(r'%s_outline_(\d+)_(\d+)' % d, p['name'])
-            established = [i for i in range(len(lemmas)) if pos_of.get(i) and max(q for _, q in pos_of[i]) < k]
-            if m and int(m.group(1)) in established:
-                established.remove(int(m.group(1)))
+            # justified at this point: for the conjecture problems of lemma i the lemmas before i (outline order, whatever
+            # the order in which the problems are emitted - a lemma may be used wherever its own proof does not depend on
+            # the user, i.e. no circularity); for a main problem every lemma of the direction
+            established = list(range(int(m.group(1)))) if m else list(range(len(lemmas)))
             r = dict(base)
             r.update(key=item['label'] + '#visible#' + p['name'], input='%s [%s]' % (item['label'], p['name']),
                      obligation='forall I: (premises of the direction and accepted definitions and the lemmas whose conjecture '
